@@ -34,12 +34,12 @@ var c19Targets = []c19Target{
 }
 
 // model keys (normalised names) and the spellings a user may type for them
-var c19Keys = []string{"default", "a", "Zä b", "w/2", "A", "q\"x"}
+var c19Keys = []string{"default", "a", "Zä b", "w/2@x", "A", "q\"x"}
 var c19Spellings = map[string][]string{
 	"default": {"", "@", "default", "@default"},
 	"a":       {"a", "@a", "@@a"},
 	"Zä b":    {"Zä b", "@Zä b"},
-	"w/2":     {"w/2", "@w/2"}, // a name that looks like a relative path
+	"w/2@x":   {"w/2@x", "@w/2@x"}, // a name that looks like a relative path and contains the prefix character
 	"A":       {"A", "@A"},
 	"q\"x":    {"q\"x", "@q\"x"},
 }
@@ -82,7 +82,7 @@ func init() {
 	fw.Register(&fw.Check{
 		ID:    "C19",
 		Title: "The bookmark database behaves as a persistent name-to-file map",
-		Rule: "explicit-state exploration of the FULL state graph of the bookmark database: states = all maps from the name keys {default, a, 'Zä b', 'w/2'} (quick) / {default, a, 'Zä b', 'w/2', A, 'q\"x'} (thorough; byte order and case-folded order of the names differ; one name looks like a relative path) to " +
+		Rule: "explicit-state exploration of the FULL state graph of the bookmark database: states = all maps from the name keys {default, a, 'Zä b', 'w/2@x'} (quick) / {default, a, 'Zä b', 'w/2@x', A, 'q\"x'} (thorough; byte order and case-folded order of the names differ; one name looks like a relative path) to " +
 			"{absent, a plain file (also by a relative spelling), a file with spaces, quotes and non-ASCII characters in its path, a missing file set with --force}: 4^4 = 256 / 4^6 = 4096 states; every state is built through the real CLI " +
 			"along a shortest path from the empty database; in every state EVERY operation is executed: set x every spelling of every name (\"\", @, default, @default, a, @a, @@a, …) x every target (with and without --force), " +
 			"unset x every spelling plus unknown names, the alias spellings (bk new / bookmark set / bk rm / bk clear -y / bk ls), clear --yes, clear answered y / n / EOF; observers list (also under reversed and rotated map iteration orders), info (--dir, --file), `klog total @name`, `klog total` (default bookmark) on every state. " +
